@@ -4,17 +4,24 @@ hang, with the wait-for picture as witness), step budgets (forward executions; s
 the main loop), LP_FINI exactly once per LP."""
 import vlib
 import sim_common
+import mpi_common
 
 
 def run(tier, seed):
     chk = vlib.Check("C08", tier, seed)
-    n = 220 if tier == "quick" else 5000
+    n = 160 if tier == "quick" else 5000
     cases = sim_common.make_cases("C08", tier, seed, n, variants=(0, 0, 1, 2, 0, 3, 0, 1), fp_levels=(2, 3, 1, 2, 3), sizes=(0,),
                                   gvts=[0, 20, 1000, 0, 200, 50, 1000, 5000], threads=[2, 3, 4, 2, 8, 2, 12, 5, 3, 4, 2, 6])
     recs = sim_common.run_sim_cases(chk, cases, timeout=200, retries=0)
+    # multi-rank shutdown: ranks leave the main loop at different moments, control messages may still be in flight
+    chk.soft_fraction = 0.3
+    mcases = mpi_common.make_cases("C08", tier, seed, 36 if tier == "quick" else 600, variants=(0, 1, 2, 0, 3), fault_rates=(0, 40, 0),
+                                   layouts=[(2, 2), (3, 2), (2, 1), (3, 1), (2, 3), (4, 1)], gvts=[1000, 0, 200, 5000, 20])
+    mrecs = mpi_common.run_mpi_cases(chk, mcases, timeout=30 if tier == "quick" else 90, retries=0)
+    chk.stats["mpi_runs_returned"] = sum(1 for c, r, t, a in mrecs if not a)
     chk.rule = ("one case = a short run (1.5k-4.5k events) of a generated model ended by predicates (unbalanced targets: some LPs done at init or after a few "
                 "events), by a termination time, or by RootsimStop() from a handler (also at timestamp 0 with other timestamp-0 events pending), with GVT "
                 "period 0/20/50/200/1000/5000 us, 2..12 threads, failpoints at loop exit, after the GVT block, between GVT phases, in barrier spins; "
                 "non-trivial = rollbacks + anti-messages occurred; distinct = schedule signature")
     chk.assumptions = ["liveness is decided as bounded progress: every explored run returned within the step budget and without a 12 s state freeze; an unbounded 'eventually' is out of reach of runtime monitoring"]
-    return chk.finish(min_evals=50, require={"runs_variant_0": 20, "runs_variant_1": 10, "runs_variant_2": 10, "runs_variant_3": 5, "termination_votes": 50, "gvt_values_consumed": 500})
+    return chk.finish(min_evals=50, require={"runs_variant_0": 20, "runs_variant_1": 10, "runs_variant_2": 10, "runs_variant_3": 5, "termination_votes": 50, "gvt_values_consumed": 500, "mpi_runs_returned": 6})
